@@ -303,6 +303,8 @@ class C02(QueryFamily):
             return gen_query.gen_case_conj_under_disj(rng, tier)
         if r < 0.5:
             return gen_query.gen_case_dedup(rng, tier)
+        if r < 0.6:
+            return gen_query.gen_case_object_join(rng, tier)
         nv = rng.choice([2, 2, 3] if tier == 'quick' else [2, 3, 3, 4])
         return gen_query.gen_case(rng, nvars=nv, falsy=True, neg=True, maxdepth=3, select=rng.choice(['all', 'all', 'some']),
                                   dom_max=4 if nv < 4 else 3)
@@ -319,6 +321,8 @@ class C03(QueryFamily):
                    "row-level statement rests on C02's evaluator theorem; tie = exact row sequences / sets against the model")
 
     def gen(self, rng, i, tier):
+        if rng.random() < 0.2:
+            return gen_query.gen_case_negated_conjunction(rng, tier)
         nv = rng.choice([1, 1, 2])
         c = gen_query.gen_case(rng, nvars=nv, falsy=True, neg=True, maxdepth=3 if tier == 'quick' else 4, select='all', dom_max=4)
         if c['cond'] is not None:
